@@ -99,6 +99,7 @@ pub type Coins = Vec<(i64, u128)>;
 pub enum Op {
     NewEpoch,
     Donate { sender: i64, asset: i64, #[serde(with = "u128s")] amount: u128 },
+    Gift { sender: i64, to: i64, asset: i64, #[serde(with = "u128s")] amount: u128 },
     Snapshot,
     OpenFlow { sender: i64, #[serde(with = "coins")] funds: Coins, #[serde(with = "coins")] allow: Coins, start: Option<u64>, end: Option<u64>, asset: i64, #[serde(with = "u128s")] amount: u128, label: Option<u64> },
     ExpandFlow { sender: i64, #[serde(with = "coins")] funds: Coins, #[serde(with = "coins")] allow: Coins, ident: Ident, end: Option<u64>, asset: i64, #[serde(with = "u128s")] amount: u128 },
@@ -121,6 +122,7 @@ impl Op {
         match self {
             Op::NewEpoch => "NewEpoch".into(),
             Op::Donate { sender, asset, amount } => format!("Donate {} {} {}", sender, asset, amount),
+            Op::Gift { sender, to, asset, amount } => format!("Gift {} {} {} {}", sender, to, asset, amount),
             Op::Snapshot => "Snapshot".into(),
             Op::OpenFlow { sender, funds, allow, start, end, asset, amount, label } =>
                 format!("OpenFlow {} {} {} {} {} {} {} {}", sender, coq_coins(funds), coq_coins(allow), coq_opt(start), coq_opt(end), asset, amount, coq_opt(label)),
@@ -140,7 +142,7 @@ impl Op {
     }
     pub fn kind(&self) -> &'static str {
         match self {
-            Op::NewEpoch => "NewEpoch", Op::Donate { .. } => "Donate", Op::Snapshot => "Snapshot", Op::OpenFlow { .. } => "OpenFlow",
+            Op::NewEpoch => "NewEpoch", Op::Donate { .. } => "Donate", Op::Gift { .. } => "Gift", Op::Snapshot => "Snapshot", Op::OpenFlow { .. } => "OpenFlow",
             Op::ExpandFlow { .. } => "ExpandFlow", Op::CloseFlow { .. } => "CloseFlow", Op::Claim { .. } => "Claim",
             Op::OpenPosition { .. } => "OpenPosition", Op::ExpandPosition { .. } => "ExpandPosition",
             Op::ClosePosition { .. } => "ClosePosition", Op::Withdraw { .. } => "Withdraw", Op::HelperDeposit { .. } => "HelperDeposit",
@@ -149,7 +151,7 @@ impl Op {
     pub fn sender(&self) -> Option<i64> {
         match self {
             Op::NewEpoch | Op::Snapshot => None,
-            Op::Donate { sender, .. } | Op::OpenFlow { sender, .. } | Op::ExpandFlow { sender, .. } | Op::CloseFlow { sender, .. }
+            Op::Gift { sender, .. } | Op::Donate { sender, .. } | Op::OpenFlow { sender, .. } | Op::ExpandFlow { sender, .. } | Op::CloseFlow { sender, .. }
             | Op::Claim { sender } | Op::OpenPosition { sender, .. } | Op::ExpandPosition { sender, .. }
             | Op::ClosePosition { sender, .. } | Op::Withdraw { sender } => Some(*sender),
             Op::HelperDeposit { user, .. } => Some(*user),
@@ -191,6 +193,7 @@ pub struct IncWorld {
     pub cw20: [Addr; 2],
     pub helper: Option<Addr>,
     pub pair: Option<Addr>,
+    pub pair_assets: (i64, i64),
 }
 
 pub fn init_balance(acct: i64, asset: i64) -> u128 {
@@ -263,7 +266,7 @@ impl IncWorld {
         let inc: incentive_factory::IncentiveResponse = app.wrap().query_wasm_smart(&factory, &incentive_factory::QueryMsg::Incentive { lp_asset: info(cfg.lp) })
             .map_err(|e| e.to_string())?;
         let incentive = inc.ok_or("no incentive")?;
-        Ok(IncWorld { app, cfg: cfg.clone(), factory, incentive, distributor, cw20, helper: None, pair: None })
+        Ok(IncWorld { app, cfg: cfg.clone(), factory, incentive, distributor, cw20, helper: None, pair: None, pair_assets: (0, 0) })
     }
 
     /// world for the frontend helper: a real constant-product pair over (a0, a1), its cw20 LP token becomes asset 10,
@@ -305,7 +308,7 @@ impl IncWorld {
         let helper = app.instantiate_contract(helper_code, Addr::unchecked(OWNER),
             &white_whale_std::pool_network::frontend_helper::InstantiateMsg { incentive_factory: factory.to_string() }, &[], "helper", None)
             .map_err(|e| format!("{:#}", e))?;
-        Ok(IncWorld { app, cfg: cfg.clone(), factory, incentive, distributor, cw20, helper: Some(helper), pair: Some(pair) })
+        Ok(IncWorld { app, cfg: cfg.clone(), factory, incentive, distributor, cw20, helper: Some(helper), pair: Some(pair), pair_assets: (a0, a1) })
     }
 
     /// what the constant-product pair will mint for (d0, d1), computed from its public Pool query (oracle input of the model)
@@ -314,7 +317,7 @@ impl IncWorld {
         let pool: white_whale_std::pool_network::pair::PoolResponse = match self.app.wrap().query_wasm_smart(&pair, &white_whale_std::pool_network::pair::QueryMsg::Pool {}) { Ok(p) => p, Err(_) => return 0 };
         let s = pool.total_share.u128();
         let (p0, p1) = (pool.assets[0].amount.u128(), pool.assets[1].amount.u128());
-        use cosmwasm_std::Uint256;
+        use cosmwasm_std::{Isqrt, Uint256};
         if s == 0 {
             let prod = Uint256::from(d0) * Uint256::from(d1);
             let r: u128 = Uint128::try_from(prod.isqrt()).map(|x| x.u128()).unwrap_or(0);
@@ -412,6 +415,15 @@ impl IncWorld {
                     AssetInfo::NativeToken { denom } => self.app.send_tokens(s, self.incentive.clone(), &[coin(*amount, denom)]).map(|_| ()).map_err(|e| format!("{:#}", e)),
                     AssetInfo::Token { contract_addr } => self.app.execute_contract(s, Addr::unchecked(contract_addr),
                         &Cw20ExecuteMsg::Transfer { recipient: self.incentive.to_string(), amount: Uint128::new(*amount) }, &[]).map(|_| ()).map_err(|e| format!("{:#}", e)),
+                }
+            }
+            Op::Gift { sender, to, asset, amount } => {
+                let s = Addr::unchecked(self.name(*sender));
+                let t = self.name(*to);
+                match self.asset_info(*asset) {
+                    AssetInfo::NativeToken { denom } => self.app.send_tokens(s, Addr::unchecked(t), &[coin(*amount, denom)]).map(|_| ()).map_err(|e| format!("{:#}", e)),
+                    AssetInfo::Token { contract_addr } => self.app.execute_contract(s, Addr::unchecked(contract_addr),
+                        &Cw20ExecuteMsg::Transfer { recipient: t, amount: Uint128::new(*amount) }, &[]).map(|_| ()).map_err(|e| format!("{:#}", e)),
                 }
             }
             Op::Snapshot => self.exec_inc(0, &incentive::ExecuteMsg::TakeGlobalWeightSnapshot {}, &vec![]),
